@@ -1,11 +1,12 @@
 #!/bin/sh
 # tools/mut.sh <property> <file-relative-to-repo> <sed-expression> [extra check args]
 # apply a one-line mutation to a scratch source copy of /repo and run the check against it (never touches /repo)
-[ "$MREPO_LOCKED" = 1 ] || { export MREPO_LOCKED=1; exec flock /tmp/mrepo.lock "$0" "$@"; }
+M=${MREPO:-/tmp/mrepo}; B=${MBUILD:-/tmp/vt/build}; V=$(cd "$(dirname "$0")/.." && pwd)
+[ "$MREPO_LOCKED" = 1 ] || { export MREPO_LOCKED=1; exec flock $M.lock "$0" "$@"; }
 set -e
 P=$1; F=$2; E=$3; shift 3
-rm -rf /tmp/mrepo; rsync -a --exclude target --exclude .git /repo/ /tmp/mrepo/
-sed -i "$E" /tmp/mrepo/$F
-if diff -q /repo/$F /tmp/mrepo/$F >/dev/null; then echo "MUTATION DID NOT APPLY"; exit 3; fi
-diff /repo/$F /tmp/mrepo/$F | head -8
-cd /verif && VERIF_REPO=/tmp/mrepo VERIF_BUILD=/tmp/vt/build ./check $P --no-evidence --no-kani --no-native "$@" 2>&1 | grep -v "^  site\|^  oblig" | cut -c1-400
+rm -rf $M; rsync -a --exclude target --exclude .git /repo/ $M/
+sed -i "$E" $M/$F
+if diff -q /repo/$F $M/$F >/dev/null; then echo "MUTATION DID NOT APPLY"; exit 3; fi
+diff /repo/$F $M/$F | head -8
+cd $V && VERIF_REPO=$M VERIF_BUILD=$B ./check $P --no-evidence --no-kani --no-native "$@" 2>&1 | grep -v "^  site\|^  oblig" | cut -c1-400
